@@ -307,6 +307,7 @@ func checkC14(r *Run) {
 	r.Stats["packages"] = len(p.Repo) + len(pc.Repo)
 	r.Rule("C14.R1.registry", "every (error kind -> payload type) an encoder produces is decoded back to the same kind by its own decoder, and no other registered decoder claims that payload type", 15)
 	r.Rule("C14.R2.terminal", "after the handler returns, each transport delivers exactly one terminal result derived from the handler's error on every path", 6)
+	r.Rule("C14.R5.fresh", "every message a stream transport decodes lands in a fresh value (never a per-stream field): the codecs merge into their target, so a later message would inherit the omitted fields of an earlier one", 2)
 	r.Rule("C14.R3.overwrite", "a stored terminal result is never overwritten: every write of a stream's terminal field happens where the field is known to be unset (behind the 'already terminated' test on the same object), except the tabled server-side close", 6)
 	r.Rule("C14.R3.sticky", "a decoded terminal error is stored before it is returned and is returned first on later calls; CloseSend marks the sender closed before sending; gRPC adapters translate transport errors", 8)
 	r.Rule("C14.R4.once", "streamCore.close closes normalShutdownSig behind a closed flag (or sync.Once) tested on the same object", 1)
@@ -317,6 +318,7 @@ func checkC14(r *Run) {
 	checkGRPCHandler(r, p)
 	checkSticky(r, p)
 	checkTerminalOverwrite(r, p)
+	checkFreshDecodeTargets(r, p, "C14.R5.fresh", func(fn *FuncNode) bool { return fn.InPkgs("freighter/http", "freighter/grpc", "freighter/mock") }, 2)
 	checkCloseOnce(r, p)
 }
 
